@@ -179,7 +179,12 @@ func (m *machine) visitInstr(fr *frame, instr ssa.Instruction) (jump bool, ret b
 		}
 		*addr = zero(deref(instr.Type()))
 	case *ssa.MakeSlice:
-		n := asInt64(fr.get(instr.Cap))
+		capV := fr.get(instr.Cap)
+		if _, sym := capV.(*Term); sym {
+			// a symbolic capacity only affects allocation, not the visible value
+			capV = fr.get(instr.Len)
+		}
+		n := asInt64(capV)
 		if n < 0 || n > 1<<24 {
 			panic(m.runtimeError("makeslice: cap out of range"))
 		}
